@@ -83,6 +83,7 @@ class Ctx:
         self.known_hits = {}      # finding id -> count
         self.notes = {}
         self.findings = load_findings(prop)
+        shutil.rmtree(os.path.join(VERIF, "replays", prop), ignore_errors=True)     # replay files belong to the run that wrote them
         self._driver = None
         self._cli = None
         self.workers = int(os.environ.get("VERIF_WORKERS", "0")) or min(16, os.cpu_count() or 4)
